@@ -13,6 +13,8 @@
   "differs only in bits the format leaves unused for that kind": the reserved bits 18..31
   and STRU for every kind; FIXP for floats; TYLE and FIXP for bool, string and raw data.
 -/
+import DltVerif.Model.Types
+
 namespace Dlt.Spec
 
 def tiBit (w i : Nat) : Bool := w / 2 ^ i % 2 = 1
@@ -34,5 +36,51 @@ def tiUnusedMask (w : Nat) : Nat :=
   if tiBit w 7 then reserved + 2 ^ 12                       -- float: FIXP
   else if tiBit w 4 || tiBit w 9 || tiBit w 10 then reserved + 2 ^ 12 + 15   -- no width: TYLE, FIXP
   else reserved
+
+-- type info --------------------------------------------------------------------------------
+
+def tiKind (w : Nat) : Option TypeInfoKind :=
+  let tyle := w % 16
+  let len : Option TypeLength :=
+    match tyle with | 1 => some .b8 | 2 => some .b16 | 3 => some .b32 | 4 => some .b64 | 5 => some .b128
+                    | _ => none
+  let fw : Option FloatWidth := match tyle with | 3 => some .w32 | 4 => some .w64 | _ => none
+  match [4, 5, 6, 7, 8, 9, 10].filter (tiBit w) with
+  | [4] => some .bool
+  | [5] => if tiBit w 12 then fw.map .signedFixedPoint else len.map .signed
+  | [6] => if tiBit w 12 then fw.map .unsignedFixedPoint else len.map .unsigned
+  | [7] => fw.map .float
+  | [9] => some .stringType
+  | [10] => some .raw
+  | _ => none
+
+def tiCoding (w : Nat) : StringCoding :=
+  match w / 32768 % 8 with
+  | 0 => .ascii
+  | 1 => .utf8
+  | c => .reserved (BitVec.ofNat 8 c)
+
+/-- decode a type-info word -/
+def tiDecode (w : Nat) : Option TypeInfo :=
+  (tiKind w).map fun k =>
+    { kind := k, coding := tiCoding w, hasVariableInfo := tiBit w 11, hasTraceInfo := tiBit w 13 }
+
+/-- the word of a type description -/
+def tiWord (t : TypeInfo) : Nat :=
+  let lenCode : TypeLength → Nat | .b8 => 1 | .b16 => 2 | .b32 => 3 | .b64 => 4 | .b128 => 5
+  let fwCode : FloatWidth → Nat | .w32 => 3 | .w64 => 4
+  (match t.kind with
+   | .bool => 16
+   | .signed l => lenCode l + 32
+   | .signedFixedPoint w => fwCode w + 32 + 4096
+   | .unsigned l => lenCode l + 64
+   | .unsignedFixedPoint w => fwCode w + 64 + 4096
+   | .float w => fwCode w + 128
+   | .stringType => 512
+   | .raw => 1024)
+  + (if t.hasVariableInfo then 2048 else 0)
+  + (if t.hasTraceInfo then 8192 else 0)
+  + 32768 * (match t.coding with | .ascii => 0 | .utf8 => 1 | .reserved v => v.toNat % 8)
+
 
 end Dlt.Spec
